@@ -85,8 +85,17 @@ class State:
                 ctx.violation("clipped-zero-grad", "clipped-entry-nonzero-grad/" + mech,
                               observed={"grad_on_clipped": g[clipped][:8], "P": P}, expected="exact zeros")
         if not _gem.interior(P, eps):
-            ctx.count("not_interior_no_derivative_check")
-            return
+            # Points with entries below epsilon (or above 1-epsilon) are still interior points of the simplex as long as
+            # every entry is positive: the returned score is flat in the clipped entries and smooth in the others, so its
+            # derivative through the soft-max parameterisation is still defined - unless an entry sits at a clipping
+            # boundary (a kink), or is exactly 0 (no logit).
+            rows_ok = P.ndim == 2 and P.size > 0 and bool(np.all(np.abs(P.sum(1) - 1.0) <= 1e-9))
+            positive = bool(np.all(P > 0))
+            near_kink = bool(np.any((P > eps / 4) & (P < 4 * eps))) or bool(np.any((P > 1 - 4 * eps) & (P < 1 - eps / 4)))
+            if not (rows_ok and positive) or near_kink:
+                ctx.count("not_interior_no_derivative_check")
+                return
+            ctx.count("partially_clipped_derivative_checks")
         if not np.all(np.isfinite(g)):
             ctx.violation("finite-grad", "nonfinite-grad-interior/" + mech, observed={"P": P, "grad": g},
                           expected="finite")
